@@ -81,7 +81,15 @@ func (nd *KVNode) scanCommand(cmd redcon.Command) (interface{}, error) {
 	if length < count || (count == 0 && length == 0) {
 		nextCursor = []byte("")
 	} else {
-		nextCursor = ay[len(ay)-1]
+		// the cursor is relative to the table (as in advscan), since the merge of the
+		// partition cursors in the server puts the table in front of it again
+		item := ay[len(ay)-1]
+		_, rk, err := common.ExtractTable(item)
+		if err != nil {
+			nextCursor = []byte("")
+		} else {
+			nextCursor = rk
+		}
 	}
 
 	if length > 0 {
